@@ -540,6 +540,45 @@ def r_sort(rep, src):
             rep.ok('C10.R2', f.site, what, '→ %s, last value terminated first' % ' '.join(order))
 
 
+def r6_replaced_occurrence(rep, src):
+    """set_field_from_raw_string (every paragraph[key] = text): the field whose comment and spelling are carried over is looked up
+    under the caller's own key, so (name, i) stays the i-th occurrence; the first-occurrence fallback (name, 0) is only taken in
+    the handler of the ambiguous-key error.  Decided on the paths of the function with the locals substituted away."""
+    from .. import paths
+    f = src.func(PM + ':Deb822ParagraphElement.set_field_from_raw_string')
+    rep.saw_func(f)
+    keyp = f.params()[1]
+    ps = paths.function_paths(f.node, max_paths=20000)
+    rep.analysed['paths'] += len(ps)
+    n = 0
+    bad = None
+    for p_ in ps:
+        trees = [t_ for t_, _ in p_.conds] + list(p_.env.values()) + [ev[1] for ev in p_.events if ev[0] == 'effect'] + [ev[2] for ev in p_.events if ev[0] == 'store']
+        ambiguous = any(isinstance(t_, ast.Call) and norm(t_.func) == '__raised__' and 'Ambiguous' in str(t_.args[0].value) for t_, pol in p_.conds if pol)
+        seen = set()
+        for tr in trees:
+            for c in ast.walk(tr):
+                if isinstance(c, ast.Call) and isinstance(c.func, ast.Attribute) and c.func.attr == 'get_kvpair_element' and norm(c.func.value) == 'self' and c.args:
+                    k = norm(c.args[0])
+                    if k in seen:
+                        continue
+                    seen.add(k)
+                    n += 1
+                    if k == keyp:
+                        continue
+                    if ambiguous and isinstance(c.args[0], ast.Tuple) and len(c.args[0].elts) == 2 and norm(c.args[0].elts[1]) == '0' \
+                            and ('_unpack_key(%s)' % keyp) in norm(c.args[0].elts[0]):
+                        continue
+                    bad = bad or 'on the path [%s] the field to be replaced is looked up as %s instead of the given key `%s`' % (p_.describe()[:120], k[:60], keyp)
+    if n == 0:
+        raise AnalysisError('%s: no look-up of the field being replaced found' % f.site)
+    if bad is None:
+        rep.ok('C10.R6', f.site, 'the replaced occurrence is the one looked up', '%d look-ups: the given key, or (name, 0) in the ambiguous-key handler' % n)
+    else:
+        rep.fail('C10.R6', f.site, 'the replaced occurrence is the one looked up', bad + ': assigning paragraph[(name, i)] takes comment and spelling from another '
+                 'occurrence (its comment is detached there and attached to the replaced field)', where=f.where)
+
+
 def check(src, rep, tier):
     rep.explanation = ('C10: the structural methods are interpreted on symbolic heaps.  Duplicate-capable paragraph: four layouts (A B A C A, '
                        'B A C, A A B, B A A) × order_first/last/before/after × every single, indexed and bulk key (and every reference key): the '
@@ -554,11 +593,13 @@ def check(src, rep, tier):
     rep.need('C10.R1', 150)
     rep.need('C10.R4', 25)
     rep.need('C10.R5', 15)
+    rep.need('C10.R6', 1)
     rep.guard('C10.R1', r1_r2_dup_reorder, src)
     rep.guard('C10.R5', r5_dup_set_remove, src)
     rep.guard('C10.R1', r_nodup, src)
     rep.guard('C10.R4', r4_file_insert_append, src)
     rep.guard('C10.R2', r_sort, src)
+    rep.guard('C10.R6', r6_replaced_occurrence, src)
 
     def helper(r):
         from . import C05
